@@ -324,12 +324,12 @@ def fix_token_meta(job):
 
 
 # ------------------------------------------------------------------ families
-def family_jobs(seeds, nfam, bases, patterns=None, label="c15fam"):
+def family_jobs(seeds, nfam, bases, patterns=None, label="c15fam", round_robin=False):
     """bases: list of Jobs (corpus/synth) whose YAML is used."""
     out = []
     for i in range(nfam):
         rng = seeds.rng(label, i)
-        base = bases[i % len(bases)] if patterns else rng.choice(bases)
+        base = bases[i % len(bases)] if (patterns or round_robin) else rng.choice(bases)
         pat = patterns[(i // len(bases)) % len(patterns)] if patterns else None
         dargv, mk, pat = pool.dir_pattern(rng, pat)
         ypath = [p for p in base.files if p.endswith("/" + base.meta["yaml"] + ".yaml")][0]
@@ -395,8 +395,20 @@ class C15Engine(gcheck.GEngine):
         for j in sy:
             j.meta["cmdline"] = []
         rng = self.seeds.rng("c15bases")
-        bases = rng.sample(corpus, min(len(corpus), max(6, t["nfam"] // 2))) + rng.sample(sy, min(len(sy), t["nfam"] // 2))
-        fam = family_jobs(self.seeds, t["nfam"], bases)
+        # feature-diverse corpus libraries first (namespaces -> several Fortran modules, templates,
+        # strings/vectors -> utility file and bufferify variants, generic, structs, classes ...),
+        # then randomly drawn ones, then synthetic libraries
+        prio = ["namespace", "templates", "strings", "generic", "vectors", "struct-c", "classes", "ownership",
+                "scope", "tutorial", "clibrary", "include", "forward", "example", "cdesc", "names"]
+        byname = {j.id.split("/")[1]: j for j in corpus}
+        ncorp = max(8, (t["nfam"] * 2) // 3)
+        bases = [byname[n] for n in prio if n in byname][:ncorp]
+        rest = [j for j in corpus if j not in bases]
+        if len(bases) < ncorp:
+            bases += rng.sample(rest, min(len(rest), ncorp - len(bases)))
+        bases += rng.sample(sy, min(len(sy), max(2, t["nfam"] - len(bases))))
+        # one family per base (round robin), so that every base is used
+        fam = family_jobs(self.seeds, t["nfam"], bases, patterns=None, round_robin=True)
         # complete sweep: every flag vector of the domain x every directory pattern for a few libraries
         sweep_bases = [j for j in corpus if j.id in ("corpus/tutorial", "corpus/classes", "corpus/struct-c",
                                                      "corpus/strings", "corpus/vectors", "corpus/clibrary",
@@ -406,7 +418,7 @@ class C15Engine(gcheck.GEngine):
                             label="c15sweep")
         self.sweep_space = len(sweep_bases) * len(pats) * len(FLAG_VECTORS)
         toks = token_jobs(self.seeds, t["ntok"])
-        others = rng.sample(corpus, t["nother"])
+        others = rng.sample([j for j in corpus if j not in bases], t["nother"])
         for j in others:
             j.meta["cwd_free"] = True
         poisons = pool.poison_jobs(self.seeds, 10, corpus)
